@@ -29,12 +29,14 @@ D_CARET_EOF = 16         # `^^` at end of input raises TypeError (TeX: two super
 D_CARET_NONASCII = 32    # `^^c` is decoded for c >= 128 (TeX: only for c < 128)
 D_EOL_DISCARD = 64       # a category-5 character other than newline discards the rest of the physical line only in
                          # state N (TeX: always)
+D_CARET_NO_RESCAN = 128  # the character produced by ^^X is not re-examined for a further ^^ sequence, except that a
+                         # decoded character that ends a control word is pushed back and read again (so it is re-examined there)
 
 DEV_NAMES = {
     D_IGNORED_EARLY: 'C01.IGNORED_EARLY', D_ESC_EOL_SPACE: 'C01.ESC_EOL_SPACE',
     D_CTRL_SPACE_M: 'C01.CTRL_SPACE_STATE_M', D_STATIC_LETTERS: 'C01.STATIC_LETTER_SKIP',
     D_CARET_EOF: 'C01.CARET_EOF', D_CARET_NONASCII: 'C01.CARET_NONASCII',
-    D_EOL_DISCARD: 'C01.EOL_DISCARD_ONLY_N',
+    D_EOL_DISCARD: 'C01.EOL_DISCARD_ONLY_N', D_CARET_NO_RESCAN: 'C01.CARET_NO_RESCAN',
 }
 
 
@@ -48,21 +50,28 @@ def lex(s, cat, dev=0, static_letters=frozenset()):
 
     def rd(i):
         """next character with ^^ reduction: (char, code, next index); char None at end of input"""
+        nonlocal s, n
         while True:
             if i >= n:
                 return None, None, n
             ch = s[i]
             code = get(ch, 12)
             i += 1
-            if code == 7 and i < n and s[i] == ch:
+            # TeX re-examines the character produced by a ^^X reduction ("goto reswitch"): if it is again a
+            # superscript character followed by an identical one, a further reduction takes place
+            while code == 7 and i < n and s[i] == ch:
                 if i + 1 < n:
                     c = ord(s[i + 1])
                     if c < 128 or (dev & D_CARET_NONASCII):
                         ch = chr(c - 64 if c >= 64 else c + 64)
                         code = get(ch, 12)
                         i += 2
+                        if dev & D_CARET_NO_RESCAN:
+                            break
+                        continue
                 elif dev & D_CARET_EOF:
                     raise TypeError('^^ at end of input')
+                break
             if early and (code == 9 or code == 15):
                 continue
             return ch, code, i
@@ -105,6 +114,10 @@ def lex(s, cat, dev=0, static_letters=frozenset()):
                     while True:
                         ch3, code3, j = rd(i)
                         if ch3 is None or code3 != 11:
+                            if (dev & D_CARET_NO_RESCAN) and ch3 is not None and j - i > 1:
+                                # plasTeX pushes the *decoded* character back and reads it again
+                                s = s[:i] + ch3 + s[j:]
+                                n = len(s)
                             break           # not consumed: re-read from i
                         word.append(ch3)
                         i = j
